@@ -425,20 +425,30 @@ class SchedulingSolver(BaseModelWithJson):
         equivalent_single_objective = z3.Int("EquivalentSingleObjective")
         weighted_objectives = []
         for obj in self.problem.objectives.values():
+            if obj.name == "MinimizeEquivalentObjective":
+                # created by a previous initialization of this problem: not a user objective
+                continue
             variable_to_optimize = obj._target
             weighted_objectives.append(obj.weight * variable_to_optimize)
+            objectives_kind = obj.kind
         self.append_z3_assertion(
             equivalent_single_objective == z3.Sum(weighted_objectives)
         )
-        # create an indicator
-        equivalent_indicator = IndicatorFromMathExpression(
-            name="EquivalentIndicator", expression=equivalent_single_objective
-        )
-        equivalent_objective = Objective(
-            name="MinimizeEquivalentObjective",
-            target=equivalent_indicator,
-            kind=obj.kind,
-        )
+        if "EquivalentIndicator" in self.problem.indicators:
+            # the problem has already been initialized (by this solver or another one):
+            # reuse the indicator and the objective instead of registering them twice
+            equivalent_indicator = self.problem.indicators["EquivalentIndicator"]
+            equivalent_objective = self.problem.objectives["MinimizeEquivalentObjective"]
+        else:
+            # create an indicator
+            equivalent_indicator = IndicatorFromMathExpression(
+                name="EquivalentIndicator", expression=equivalent_single_objective
+            )
+            equivalent_objective = Objective(
+                name="MinimizeEquivalentObjective",
+                target=equivalent_indicator,
+                kind=objectives_kind,
+            )
         self._objective = equivalent_objective
         self.append_z3_assertion(equivalent_indicator.get_z3_assertions())
         return equivalent_objective, equivalent_indicator
